@@ -29,7 +29,8 @@ def codes_for_handle(toks, h, upto):
         m = re.fullmatch(r"(?:swrite|sread)(\d+):\d+:(\d+)", t) or re.fullmatch(r"(?:scw|scr|fwrite|fread|fcw|fcr)(\d+):(\d+)", t)
         if m and int(m.group(1)) == h:
             out.append(int(m.group(2))); continue
-        m = re.fullmatch(r"dlv\((\d+),(\d+)\)", t) or re.fullmatch(r"ev\(\d+,(\d+),(\d+)\)", t)
+        m = (re.fullmatch(r"dlv\((\d+),(\d+)\)", t) or re.fullmatch(r"ev\(\d+,(\d+),(\d+)\)", t)
+             or re.fullmatch(r"ws\.(?:poll|wait)\(\d+\)=\d+:(\d+):(\d+)", t))
         if m and int(m.group(1)) == h:
             out.append(int(m.group(2)))
     return out
@@ -69,8 +70,7 @@ def stranded_default_write(script, trace, fails):
     toks = trace.split(" ")
     if "X" not in toks:
         return False
-    after = toks[toks.index("X"):]
-    if not any(t.startswith("def") for t in after):
+    if not any(re.fullmatch(r"def\d+:\d+", t) for t in toks):
         return False
     return all(f.startswith(STRANDED_OK) for f in fails)
 
